@@ -138,7 +138,10 @@ class PITFrozenDilationMasker(PITDilationMasker):
             rf,
             trainable=False,
         )
-        self.gamma.requires_grad = False
+        # a frozen mask is not a parameter: keep it as a (non-trainable) buffer with the same name
+        gamma = self.gamma.data
+        del self.gamma
+        self.register_buffer('gamma', gamma)
 
     @property
     def trainable(self) -> bool:
